@@ -589,6 +589,9 @@ func encField(e *enc, f *descriptorpb.FieldDescriptorProto, fd protoreflect.Fiel
 type Ann struct {
 	Rule, File, Path string
 	Message          string
+	// Line, Col: start of the span as the CLI annotation carries it (0, 0 without a location);
+	// not part of Key() / the protocol, used by the position oracle of the C03 nest family.
+	Line, Col int
 }
 
 func (a Ann) Key() string { return a.Rule + ":" + hx.Enc(a.File) + ":" + a.Path }
@@ -745,7 +748,7 @@ func (r *Runner) RunX(v bufconfig.FileVersion, use, except []string, cur, prev *
 			paths = []string{fmt.Sprintf("?%d:%d-%d:%d", k.sl, k.sc, k.el, k.ec)}
 		}
 		for _, p := range paths {
-			anns = append(anns, Ann{Rule: fa.Type(), File: k.file, Path: p, Message: fa.Message()})
+			anns = append(anns, Ann{Rule: fa.Type(), File: k.file, Path: p, Message: fa.Message(), Line: k.sl, Col: k.sc})
 		}
 	}
 	return anns, nil
